@@ -294,7 +294,7 @@ def initializer_flag(d, ctx):
     ctx.label(f'K={K}', 'minimum' if use_min else 'hard')
 
 
-@subcheck(SUBCHECKS, 'initializer_deflation', quick=24, thorough=300,
+@subcheck(SUBCHECKS, 'initializer_deflation', quick=64, thorough=600,
           min_nontrivial=0.0)
 def initializer_deflation(d, ctx):
     from pb_bss.initializer import deflation
@@ -308,9 +308,22 @@ def initializer_deflation(d, ctx):
     Y = (rng.normal(size=(F, T, D)) + 1j * rng.normal(size=(F, T, D)))
     if d.bool():
         Y[:, d.int(0, T - 1), :] = 0
+    kw = {}
+    sal_kind = d.choice(['default', 'given', 'given-with-zeros'])
+    if sal_kind != 'default':
+        sal = rng.uniform(0.1, 2, size=(F, T))
+        if sal_kind == 'given-with-zeros':
+            sal[:, d.int(0, T - 1)] = 0
+        kw['saliencies'] = sal
+    transform = d.choice(['none', 'none', 'square', 'saliency-weighted'])
+    if transform == 'square':
+        kw['similarity_transform'] = lambda sim, sal_: sim ** 2
+    elif transform == 'saliency-weighted':
+        kw['similarity_transform'] = lambda sim, sal_: sim * (sal_ > 0)
     out = ctx.lib(deflation.deflationSeed, Y, K, permutation_free=pf,
-                  neighbors=neighbors, eps=d.choice([0, 1e-6]))
-    ctx.describe(F=F, T=T, D=D, K=K, permutation_free=pf, neighbors=neighbors)
+                  neighbors=neighbors, eps=d.choice([0, 1e-6]), **kw)
+    ctx.describe(F=F, T=T, D=D, K=K, permutation_free=pf, neighbors=neighbors,
+                 saliencies=sal_kind, similarity_transform=transform)
     # documented shape (K, F, T): the class axis comes first
     require(np.shape(out) == (K, F, T), 'deflation-shape', f'{np.shape(out)}')
     out = np.asarray(out)
